@@ -7,15 +7,15 @@ output rank with the input rank following, uniform and n-way, all legal loop ord
 accessed tensor's own rank) is executed against the dense oracle, and every output coordinate must be below the
 declared extent."""
 import json, random
-import common, pool, specs, gens, ftdiff, c02
+import common, pool, specs, gens, ftdiff, c02, semcheck
 
 
 def classify(case, rec):
     tags = case["tags"]
     preds = set()
-    a = int([t for t in tags if t[0] == "a" and t[1:].isdigit()][0][1:])
+    coefs = [int(t[1:]) for t in tags if t[0] in "ab" and t[1:].isdigit()]
     b = int([t for t in tags if t[0] == "b" and t[1:].isdigit()][0][1:])
-    if any(x & (x - 1) for x in (a, b)):
+    if any(x & (x - 1) for x in coefs):
         preds.add("nondyadic_coefficient")
     S = [r for r in case["ext"] if r in ("S", "R")][0]
     halo = b * (case["ext"][S] - 1)
@@ -23,23 +23,243 @@ def classify(case, rec):
         preds.add("halo_partition")
     if halo > 0 and "part2" in tags:
         preds.add("halo_two_levels")
+    if mixed_activity(case, rec):
+        preds.add("term_without_fiber_at_loop")
     return preds
 
 
+_LO = {}
+
+
+def impl_loop_order(rec, out):
+    """the loop order of the mapping, else the implementation's own (cached per record)"""
+    d = rec["yaml"]
+    lo = ((d.get("mapping") or {}).get("loop-order") or {}).get(out)
+    if lo is not None:
+        return lo
+    key = id(rec)
+    if key not in _LO:
+        _LO[key] = pool.loop_ranks(d) or {}
+    return _LO[key].get(out)
+
+
+def aff_form(case, rec):
+    """the Einsum in loop-variable form for the Lean model compiler of the affine nest (Props/C04Den): every loop rank that is an
+    index variable's rank loops that variable; a loop over a tensor's own rank W (accessed as a*q + s) loops w and the variable
+    it replaces is eliminated (s = w - a*q; only when its coefficient is +-1)"""
+    if len(case["eins"]) != 1 or (rec["yaml"].get("mapping") or {}).get("partitioning"):
+        return None
+    e = case["eins"][0]
+    if any(t["kind"] != "times" for t in e["terms"]):
+        return None
+    lo = impl_loop_order(rec, e["out"])
+    if lo is None:
+        return None
+    ivars = gens.ein_vars(e)
+    subst = {}
+    loopvars = []
+    for R in lo:
+        if R.lower() in ivars:
+            loopvars.append(R.lower()); continue
+        # a tensor's own rank: find its access
+        acc = None
+        for t in e["terms"]:
+            for f in t["factors"]:
+                if f[0] == "t" and R in case["decl"][f[1]]:
+                    acc = f[2][case["decl"][f[1]].index(R)]
+        if acc is None:
+            return None
+        missing = [(c, v) for c, v in acc if v.upper() not in lo]
+        if len(missing) != 1 or missing[0][0] not in (1, -1):
+            return None
+        c0, v0 = missing[0]
+        # v0 = c0 * (w - sum others)
+        subst[v0] = [(c0, R.lower())] + [(-c0 * c, v) for c, v in acc if v != v0]
+        loopvars.append(R.lower())
+    def sub(idx):
+        out = {}
+        for c, v in idx:
+            for c2, v2 in (subst[v] if v in subst else [(1, v)]):
+                out[v2] = out.get(v2, 0) + c * c2
+        return [[c, v] for v, c in out.items() if c != 0]
+    terms = []
+    for t in e["terms"]:
+        scal, tensors = 1, []
+        for f in t["factors"]:
+            if f[0] == "s":
+                scal *= case["env"][f[1]]
+            else:
+                tensors.append({"name": f[1], "ranks": list(case["decl"][f[1]]), "idx": [{"terms": sub(i), "const": 0} for i in f[2]]})
+        terms.append({"scal": scal, "tensors": tensors})
+    out_vars = []
+    for i in e["oidx"]:
+        si = sub(i)
+        if len(si) != 1 or si[0][0] != 1:
+            return None
+        out_vars.append(si[0][1])
+    if any(v not in loopvars for t in terms for x in t["tensors"] for i in x["idx"] for _, v in i["terms"]):
+        return None
+    return {"op": "nest_aff", "loop": loopvars, "exts": [case["ext"][v.upper()] for v in loopvars], "out_name": e["out"], "out_vars": out_vars,
+            "terms": terms, "tree": rec["tree"]}
+
+
+def lean_aff_request(case, rec, ex):
+    q = aff_form(case, rec)
+    if q is None:
+        return None
+    inputs = {k: {tuple(p): v for p, v in pts} for k, pts in ex["inputs"].items()}
+    for t in q["terms"]:
+        for x in t["tensors"]:
+            x["pts"] = [[list(p), v] for p, v in sorted(inputs[x["name"]].items())]
+    return q
+
+
+def mixed_activity(case, rec):
+    """at some loop one term co-iterates a fiber while another term has none (it reaches the loop's variable only through an
+    affine access that resolves later): the emitted loop then visits only the first term's coordinates.  Computed on the
+    variable sets alone (also when the loop-variable form has non-integer coefficients)."""
+    if len(case["eins"]) != 1:
+        return False
+    e = case["eins"][0]
+    if len(e["terms"]) < 2:
+        return False
+    d = rec["yaml"]
+    if (d.get("mapping") or {}).get("partitioning"):
+        return False
+    lo = impl_loop_order(rec, e["out"])
+    if lo is None:
+        return False
+    ivars = gens.ein_vars(e)
+    elim = {}          # eliminated variable -> variables that stand for it
+    own = {}           # own rank -> its access (as a tuple) which becomes the plain loop variable
+    for R in lo:
+        if R.lower() in ivars:
+            continue
+        for t in e["terms"]:
+            for f in t["factors"]:
+                if f[0] == "t" and R in case["decl"][f[1]]:
+                    acc = f[2][case["decl"][f[1]].index(R)]
+                    missing = [v for _, v in acc if v.upper() not in lo]
+                    if len(missing) == 1:
+                        elim[missing[0]] = {R.lower()} | {v for _, v in acc if v != missing[0]}
+                        own[R] = sorted(acc)
+    loopvars = [R.lower() for R in lo]
+    sets = []
+    for t in e["terms"]:
+        rs = set()
+        for f in t["factors"]:
+            if f[0] != "t":
+                continue
+            for R, acc in zip(case["decl"][f[1]], f[2]):
+                if R in own and sorted(acc) == own[R]:
+                    vs = {R.lower()}
+                else:
+                    vs = set()
+                    for _, v in acc:
+                        vs |= elim.get(v, {v})
+                pos = [loopvars.index(v) for v in vs if v in loopvars]
+                if pos:
+                    rs.add(max(pos))
+        sets.append(rs)
+    return any(s_ != sets[0] for s_ in sets)
+
+
+def check_model(ctx, recs):
+    """tie of C04.runA_eq_meaningA to the real compiler: the model compiler's affine nest has the real program's loops (loop
+    variable, co-iterated fibers, which of them are projected; each emitted trans_fn is - in exact rational arithmetic - the
+    inverse of the access, with the loop's interval and the integrality prune for strides) and computes, on the sampled input,
+    what the real program computes; the theorem's hypotheses (HypsA) are decided in Lean for every sample"""
+    import c01
+    reqs, metas = [], []
+    for r in recs:
+        if not r["ok"]:
+            continue
+        case = r["case"]
+        for ex in r["execs"][:1]:
+            if not ex.get("ok"):
+                continue
+            q = lean_aff_request(case, r, ex)
+            if q is None:
+                ctx.stat("model_not_applicable"); continue
+            reqs.append(q); metas.append((r, case, ex))
+    for (r, case, ex), a in zip(metas, common.lean_batch(reqs)):
+        if "error" in a:
+            raise common.InternalError("lean: " + a["error"])
+        out = case["eins"][0]["out"]
+        real = c01.pts_set(ex["outputs"].get(out, []))
+        run_, spec_ = c01.pts_set(a["run"]), c01.pts_set(a["spec"])
+        ctx.stat("model_affine_samples")
+        if "own_rank_loop" in case["tags"]:
+            ctx.stat("model_affine_own_rank_loop")
+        ok_h = a["hyps_ok"]
+        if ok_h:
+            ctx.stat("model_hypotheses_hold")
+        ok_thm = (run_ == spec_) or not ok_h
+        skel_ok = not a.get("skeleton_errors")
+        verdict_ok, reason, sig = semcheck.verdict(case, ex)
+        preds = classify(case, r)
+        ok_model = skel_ok and (real == run_ or (not verdict_ok and bool(preds)))
+        ctx.ob(ok_h); ctx.ob(ok_thm); ctx.ob(ok_model)
+        if ok_h and ok_thm and ok_model:
+            continue
+        rep = dict(semcheck.base_replay(r, case, ex), real=real, model_run=run_, model_spec=spec_, hyps_ok=ok_h,
+                   skeleton_errors=a.get("skeleton_errors"), skeleton_expected=a["expected_loops"], skeleton_actual=a.get("actual_loops"))
+        if not ok_h and "term_without_fiber_at_loop" in preds:
+            f = ctx.match_finding({"predicates": preds, "signature": "wrong-values"})
+            if f:
+                ctx.known(f, f["what"], failed_obligations=1); continue
+        if not ok_h:
+            ctx.violation(dict(rep, kind="model-hypotheses", obligation="C04.HypsA decided on the sampled specification and input",
+                               reason="the hypotheses of C04.runA_eq_meaningA do not hold for this generated sample (generator or model compiler out of step)"), False)
+        elif not ok_thm:
+            ctx.violation(dict(rep, kind="model-semantics", obligation="C04.runA_eq_meaningA", reason="model nest and dense nest differ although HypsA holds"), False)
+        else:
+            ctx.violation(dict(rep, kind="model-correspondence", obligation="model compiler of the affine nest (C04.runA_eq_meaningA) = real compiler: loops, projections and result",
+                               reason="the emitted program no longer matches the model nest (%s)" % ("; ".join(a.get("skeleton_errors") or []) or "result")), not verdict_ok)
+
+
+def witnesses(ctx):
+    """known findings that carry a witness are replayed against the real compiler on every run"""
+    for f in ctx.findings:
+        w = f.get("witness_case")
+        if not w:
+            continue
+        rec = pool.make_record("known:" + f["id"], 0, w, gens.to_yaml_dict(w), "plain", 0, random.Random(0), "")
+        if not rec["ok"]:
+            ctx.notes.append("known finding %s: witness no longer compiles" % f["id"]); continue
+        inputs = {k: {tuple(p): v for p, v in x} for k, x in f["witness_inputs"].items()}
+        r = gens.run_text(rec["text"], w, inputs)
+        ex = dict(inputs={k: [[list(p), v] for p, v in x.items()] for k, x in inputs.items()}, ok=r.ok, err=r.err, problems=list(r.problems),
+                  outputs={k: [[list(p), v] for p, v in x.items()] for k, x in r.outputs.items()})
+        ex["cmp"] = gens.compare(w, r, inputs) if r.ok else []
+        rec["execs"] = [ex]
+        before = len(ctx.known_hits)
+        c02.check_records(ctx, [rec], classify=classify, need_reference=False)
+        if len(ctx.known_hits) == before:
+            ctx.notes.append("known finding %s: witness no longer fails - the defect may have been repaired; entry must be revisited" % f["id"])
+
+
 def run(ctx):
-    ctx.rule = ("generated G4 specifications: O[q] = I[a*q + b*s] * F[s] (a in 1..4, b in {1,2,4}; optional channel rank), unpartitioned or with 1-2 uniform_shape / nway_shape levels "
-                "on the output rank and follow() on the input rank, every legal loop order incl. projecting through the accessed rank; executed on 2-3 random inputs vs the dense oracle, "
-                "all output coordinates below the extent; plus random fibers for exact-vs-float projection; non-trivial = program with project(); distinct = distinct text")
-    ctx.trusted = ["Lean kernel; Props/C04 (arithmetic core only; the composition with the loop nest is decided by execution)",
+    ctx.rule = ("generated G4 specifications: O[q] = I[a*q + b*s] * F[s] (a in 1..4, b in {1,2,4}; optional channel rank / mask operand), unpartitioned or with 1-2 uniform_shape / nway_shape levels "
+                "on the output rank and follow() on the input rank, every legal loop order incl. projecting through the accessed rank; G4n: unpartitioned 1-D / 2-D convolutions with strides and dilations, "
+                "strided single-variable reads, mask operands, a second term, loop order = permutation with one rank possibly replaced by the accessed tensor's own rank; each executed on 2-3 random inputs vs the dense oracle, "
+                "all output coordinates below the extent; unpartitioned ones additionally through the Lean model compiler of the affine nest (hypotheses decided, loops and projections validated on the real tree, results compared); "
+                "plus random fibers for exact-vs-float projection; non-trivial = program with project(); distinct = distinct text")
+    ctx.trusted = ["Lean kernel; Props/C04Nest + C04Den (runA_eq_meaningA: every affine sum-of-products Einsum, loop order, extent, input - exact arithmetic) and Props/C04 (tiling/halo arithmetic)",
+                   "the reading of the fibertree API: Nest.runA (project/prune/interval = projPts; co-iteration as in C01), cross-checked against the minifiber stand-in on every sample",
+                   "model compiler of the affine nest = real compiler is sampled: per specification the real tree's loops, co-iterated fibers and projections (trans_fn = exact inverse of the access, interval, prune) are validated in Lean, the result compared on the sampled input",
                    "IEEE-754: for power-of-two divisors and small magnitudes CPython's float evaluation of the emitted lambdas equals exact rational evaluation (compared on random fibers)",
-                   "the fibertree contract of project/prune/splitUniform with halos as implemented in minifiber"]
-    ctx.assumptions = ["claimed class: dyadic coefficients; at most one partition level on a rank with a halo; partition coordinates below the extent (outside: three known findings)"]
+                   "own-rank loops are modelled in loop-variable form; partitioned convolutions (intervals, halos) rest on execution + the arithmetic theorems"]
+    ctx.assumptions = ["claimed class: dyadic coefficients; at most one partition level on a rank with a halo; partition coordinates below the extent; at every loop every term or no term offers a fiber (outside: four known findings)"]
     k = 1 if ctx.tier == "quick" else 8
     rng = random.Random(ctx.seed * 263 + 4)
     ftdiff.run_project(ctx, rng, 100 * k)
     n = 2 if ctx.tier == "quick" else 3
-    recs = pool.collect(ctx, [dict(gen="g4", count=140 * k, modes=["plain"], nexec=n), dict(gen="g4c", count=25 * k, modes=["plain"], nexec=n)])
+    recs = pool.collect(ctx, [dict(gen="g4", count=120 * k, modes=["plain"], nexec=n), dict(gen="g4c", count=25 * k, modes=["plain"], nexec=n),
+                              dict(gen="g4n", count=90 * k, modes=["plain"], nexec=n)])
     c02.check_records(ctx, recs, classify=classify, need_reference=False)
+    check_model(ctx, recs)
+    witnesses(ctx)
     # which fraction of the sampled specifications lies inside the claimed class
     inside = sum(1 for r in recs if r["ok"] and not classify(r["case"], r))
     ctx.extra["specifications_inside_claimed_class"] = inside
